@@ -122,3 +122,32 @@ func zoneC09(c *Ctx) {
 	}
 	c.Floor("C09.zone", n, 1)
 }
+
+// escapesC01: the escapes a quoted string or identifier may contain.
+func escapesC01(c *Ctx) {
+	c.Rule("C01.escapes", "inside either kind of quote ScanString accepts the escapes \\n, \\\\, \\\" and \\' (README: \\\" in double-quoted identifiers and \\' in strings; the other combinations are the scanner's own extension) and yields newline, backslash and the quote character: a spelling that uses them is legal and must not be rejected or read as something else")
+	want := map[rune]rune{'n': '\n', '\\': '\\', '"': '"', '\'': '\''}
+	n := 0
+	for _, q := range []rune{'\'', '"'} {
+		sub := NewCtx(c.P, c.Prop, c.Tier)
+		unesc, _, ok := scanStringTablesFor(sub, q)
+		if !ok {
+			c.Unk("C01.escapes", fmt.Sprintf("ScanString inside %q", q), 0, "the escape table could not be extracted")
+			continue
+		}
+		for _, e := range []rune{'n', '\\', '"', '\''} {
+			n++
+			key := fmt.Sprintf("ScanString inside %q: escape \\%c", q, e)
+			got, has := unesc[e]
+			switch {
+			case !has:
+				c.Bad("C01.escapes", key, 0, "reported as a bad escape: a legal literal is rejected")
+			case got != want[e]:
+				c.Bad("C01.escapes", key, 0, fmt.Sprintf("yields %q instead of %q", got, want[e]))
+			default:
+				c.OK("C01.escapes", key, 0, fmt.Sprintf("yields %q", got))
+			}
+		}
+	}
+	c.Floor("C01.escapes", n, 8)
+}
